@@ -263,6 +263,8 @@ class G:
             (3, lambda: self.lincomb(d)),
             (2, lambda: self.quad(d)),
         ]
+        if self.env["vectors"]:
+            c.append((1, self.dot_matvec_views))
         if self.cfg.norms:
             c.append((2, lambda: self.norm(d)))
         if self.cfg.matrix_reductions and self.env["matrices"]:
@@ -287,6 +289,22 @@ class G:
         else:
             B = self.V(d, size=n, classes=("expr",)) if vclass(A) == "var" else self.V(d, size=n, classes=("var", "expr"))
         return ["dot", A, B, self.draw(st.sampled_from(["dot", "matmul"]))]
+
+    def dot_matvec_views(self):
+        """u.dot(Q @ w) with u, w two views of ONE base vector of equal length (their derived names often coincide:
+        slice names ignore the step), e.g. x[:] and x[::-1]"""
+        v = self.draw(st.sampled_from(self.env["vectors"]))
+        base = ["vvar", v["name"]]
+        n = self.draw(st.integers(1, v["n"]))
+
+        def view():
+            if n == v["n"] and self.draw(st.integers(0, 2)) == 0:
+                return base
+            a, b, s = make_slice(self.draw, v["n"], n)
+            return ["slice", base, a, b, s]
+        u, w = view(), view()
+        Q = self.matrix_data(n, n)
+        return ["dot", u, ["matvec", Q, w, self.draw(st.sampled_from(["op", "fn"]))], self.draw(st.sampled_from(["dot", "dot", "matmul"]))]
 
     def lincomb(self, d):
         V = self.V(d, classes=("var", "expr"))
